@@ -174,12 +174,24 @@ Section U.
     end.
 
   (** ** Histories: polls of one subscriber interleaved with calls on the manager *)
-  Inductive hop := HOp (o : mop) | HPoll (max : nat).
+  (** [HPool accepted]: AddPoolTransactions / AddV2PoolTransactions (manager.go, pool section).
+      A pool submission never touches the chain state, and its notification tail collects the
+      OnPoolChange listeners only (and only for an accepted, not already known set). *)
+  Inductive hop := HOp (o : mop) | HPoll (max : nat) | HPool (accepted : bool).
 
   Definition hstep (st : mgr * sub) (h : hop) : mgr * sub :=
     match h with
     | HOp o => ((mstep U st.1 o).1.1, st.2)
     | HPoll max => match poll st.1 st.2 max with POk s' => (st.1, s') | _ => st end
+    | HPool _ => st
+    end.
+
+  (** are the OnReorg listeners invoked by this step? *)
+  Definition hnotifies (m : mgr) (h : hop) : bool :=
+    match h with
+    | HOp o => (mstep U m o).2
+    | HPoll _ => false
+    | HPool _ => false
     end.
 
   Definition hrun_from (st : mgr * sub) (hs : list hop) : mgr * sub := fold_left hstep hs st.
@@ -187,5 +199,5 @@ Section U.
   Definition hrun (hs : list hop) : mgr * sub := hrun_from (init, sub0) hs.
 
   Definition mops_of (hs : list hop) : list mop :=
-    flat_map (λ h, match h with HOp o => [o] | HPoll _ => [] end) hs.
+    flat_map (λ h, match h with HOp o => [o] | _ => [] end) hs.
 End U.
